@@ -196,7 +196,9 @@ def run(ctx):
     import scen
     from units import sesscheck
     n = int((40 if ctx.tier == "quick" else 800) * ctx.budget)
-    scns = [ctx.rng.choice([scen.gen_mixed, scen.gen_push, scen.gen_handshake, scen.gen_short_writes, scen.gen_fail])(ctx.rng) for _ in range(n)]
+    scns = [ctx.rng.choice([scen.gen_mixed, scen.gen_push, scen.gen_handshake, scen.gen_short_writes, scen.gen_fail, scen.gen_slow])(ctx.rng) for _ in range(n)]
+    # slow devices with whole-command limits expiring at every point of an exchange (also inside a message being written)
+    scns += [scen.gen_slow(ctx.rng) for _ in range(n)]
     sesscheck.check_scenarios(ctx, scns, (oracles.o_c02,), "api-streams")
     # concurrent senders: header and payload of one message must not be separated by another thread's/task's message
     from units import conc
